@@ -523,7 +523,7 @@ fn gen_lang(rng: &mut Rng) -> Vec<String> {
 fn main() {
     let args = Args::parse();
     let mut out = Out::new(&args);
-    out.rule = "random operation sequences (new/with_capacity/clone/drop/push_front/push_back/tail/head, values 0..2) over up to 6 simultaneously live handles, 40 ops each, preceded by the committed corpus; thorough adds all sequences of length <= 6 over <= 3 live handles. Plus straight-line numbat programs of 3-8 list definitions built from cons, cons_end, tail, take, drop, concat, reverse (nested calls = solely owned temporaries, let-bound lists = shared), every variable re-read after every statement and compared with a plain sequence. distinct = distinct op-sequence text; non-trivial = at least 3 ops and some step with shared storage (strong count >= 2) or a view".into();
+    out.rule = "random operation sequences (new/with_capacity/clone/drop/push_front/push_back/tail/head, values 0..2) over up to 6 simultaneously live handles, 40 ops each, preceded by the committed corpus; thorough adds all sequences of length <= 6 over <= 3 live handles. Plus straight-line numbat programs of 3-8 list definitions built from cons, cons_end, tail, take, drop, concat, reverse (nested calls = solely owned temporaries, let-bound lists = shared), every variable re-read after every statement and compared with a plain sequence; one construction in twelve uses NaN elements, and all pairs of variables are compared with == against equality of the sequences. distinct = distinct op-sequence text; non-trivial = at least 3 ops and some step with shared storage (strong count >= 2) or a view".into();
 
     if let Some(p) = &args.replay {
         for l in read_lines(p) {
@@ -549,6 +549,11 @@ fn main() {
                 if let Some(rest) = l.strip_prefix("run ") {
                     let ops: Vec<Op> = rest.split(';').filter_map(Op::parse).collect();
                     emit(&mut out, &ops, true);
+                    out.count("corpus_cases");
+                } else if let Some(rest) = l.strip_prefix("lang ") {
+                    let base = nvh::qty::prelude_ctx();
+                    let stmts: Vec<String> = rest.split(';').map(|x| x.to_string()).collect();
+                    run_lang(&base, &mut out, &stmts);
                     out.count("corpus_cases");
                 }
             }
